@@ -189,7 +189,7 @@ def r2_r3(ctx):
                 if inst.callee == "rtr_get_pdu_type":
                     return flow.av_in(10)
                 return None
-        h = H2(fn, pdb, lambda inst, E, st: None, None, None, None, None, oracle, None)
+        h = H2(fn, pdb, lambda inst, E, st: None, None, None, None, None, oracle, {TYPE: 10})
         fl = flow.Flow(fn, h)
         fl.run()
         rets = {flow.av_single(av) for (i, p, av, f, tr) in fl.ret_states}
@@ -305,29 +305,44 @@ def r4(ctx, retsets):
     ctx.check(good, "C04.R4", "failed-size-check=>failure", "%s:%d" % (fn.relfile, fn.line),
               "outcomes after a failed size check: %s" % [(o["counts"], o["ret"]) for o in badsz][:3], key="C04.R4:size-check")
     n = 0
+    rf = pdb.fn("rtr_receive_pdu")
+    rcs = retsets.get((rf.unit, rf.name))
+    rcs = sorted(rcs) if rcs and rcs != "TOP" else [0, -1, -2, -3, -4]
+    done = set()
     for c in pdb.callers("rtr_receive_pdu"):
         f = c.fn
+        if f.name in done:
+            continue
+        done.add(f.name)
         ctx.touch(f)
         buf = vf.root_of(vf.expr(f, c.args[1]))
-        uses = []
+        uses = {}
         for i in f.all_insts():
-            if i is c or not f.reaches(c, i):
+            if i.op == "call" and i.callee == "rtr_receive_pdu":
+                continue
+            if not any(f.reaches(c2, i) for c2 in f.calls("rtr_receive_pdu")):
                 continue
             if i.op == "call" and any(vf.root_of(vf.expr(f, a)) == buf for a in i.args) and not (i.callee or "").startswith("llvm."):
-                uses.append(i)
+                uses[id(i)] = i
             elif i.op == "load" and vf.root_of(vf.expr(f, i["ptr"])) == buf:
-                uses.append(i)
-        for u in uses:
-            if u.callee == "rtr_receive_pdu":
-                continue
+                uses[id(i)] = i
+        # followed along the paths, one per result code of the receive: however the caller tests the result (directly, through a
+        # helper's return value, by a switch), no path on which the last receive failed may reach a use of the buffer
+        reached = {}
+
+        def cl(inst, E, st, uses=uses, reached=reached):
+            if inst.op == "call" and inst.callee == "rtr_receive_pdu":
+                return [(["=rc:%d" % v], {inst.ref: flow.av_in(v)}) for v in rcs]
+            if id(inst) in uses and "rc" in st:
+                reached.setdefault(id(inst), set()).add(int(st["rc"]))
+            return None
+        es.count_effects(f, pdb, cl, retsets, cap=48)
+        for k, u in sorted(uses.items(), key=lambda ku: (ku[1].line, ku[1].id)):
             n += 1
-            G = es.Guards(f, u)
-            is_rc = lambda x: x[0] == "call" and x[1] == "rtr_receive_pdu"
-            safe = any(a_[0] == "c" and a_[1] >= 0 for (r, a_, b_) in G.rel if r == "le" and is_rc(b_)) or \
-                any(a_[0] == "c" and a_[1] >= -1 for (r, a_, b_) in G.rel if r == "lt" and is_rc(b_)) or \
-                any(b_[0] == "c" and b_[1] >= 0 for (a_, b_) in G.find_eq(is_rc, lambda y: True))
-            ctx.check(safe, "C04.R4", "%s:buffer-use@%d" % (f.name, n), u.loc(),
-                      "%s of the receive buffer is dominated by 'result >= 0'" % (u.callee or "read"), key="C04.R4:%s:use" % f.name)
+            neg = sorted(v for v in reached.get(k, ()) if v < 0)
+            ctx.check(not neg, "C04.R4", "%s:buffer-use@%d" % (f.name, n), u.loc(),
+                      "%s of the receive buffer is reached only after a receive that succeeded" % (u.callee or "read") if not neg else
+                      "%s of the receive buffer is reached on a path where the receive had returned %s" % (u.callee or "read", neg), key="C04.R4:%s:use" % f.name)
     ctx.floor("C04.R4", n, 10)
 
 
@@ -436,6 +451,33 @@ def _upper(pdb, fn, e, depth=0):
             if cnt[0] == "c":
                 return a["elsize"] * cnt[1] - 1
         return None
+    if e[0] == "phi":
+        # one of several call-site constants chosen on the way (a text picked by a switch): the largest of them
+        ph = fn.insts.get(e[1])
+        best = 0
+        for v, b in ph["inc"]:
+            x = vf.expr(fn, v)
+            if x == e:
+                continue
+            u = _upper(pdb, fn, x, depth + 1)
+            if u is None:
+                return None
+            best = max(best, u)
+        return best
+    if e[0] == "load" and isinstance(e[1], tuple) and e[1][0] == "alloca":
+        # a scalar local whose address is taken (a parameter copied out with memcpy): the largest value ever stored into it
+        sts = [i for i in fn.all_insts() if i.op == "store" and vf.expr(fn, i["ptr"]) == e[1]]
+        wr = [i for i in fn.all_insts() if i.op == "call" and any(vf.root_of(vf.expr(fn, a)) == e[1] for a in i.args[:1])
+              and (i.callee or "").startswith(("llvm.memcpy", "llvm.memset", "llvm.memmove", "memcpy", "memset", "memmove"))]
+        if not sts or wr:
+            return None
+        best = 0
+        for i in sts:
+            u = _upper(pdb, fn, vf.expr(fn, i["val"]), depth + 1)
+            if u is None:
+                return None
+            best = max(best, u)
+        return best
     if e[0] == "arg":
         best = 0
         sites = pdb.callers(fn.name)
@@ -466,7 +508,7 @@ def r6(ctx):
             ub = _upper(pdb, f, cnt)
             ctx.check(ub is not None and ub * a["elsize"] <= 2 * MAXPDU + 256, "C04.R6", "vla:%s:%s" % (f.name, a.get("name", "")), a.loc(),
                       "size %s, upper bound %s bytes" % (vf.show(cnt), ub), key="C04.R6:%s" % f.name)
-    ctx.floor("C04.R6", n, 3)
+    ctx.floor("C04.R6", n, 1)
     # ... and the constant length told to a formatter / receive / block copy that writes into a local array is not larger than the array
     SINKS = {"lrtr_ip_addr_to_str": (1, 2), "lrtr_ipv4_addr_to_str": (1, 2), "lrtr_ipv6_addr_to_str": (1, 2), "snprintf": (0, 1), "vsnprintf": (0, 1),
              "memcpy": (0, 2), "memset": (0, 2), "memmove": (0, 2), "strncpy": (0, 2), "inet_ntop": (2, 3), "tr_recv_all": (1, 2), "rtr_receive_pdu": (1, 2)}
